@@ -155,7 +155,10 @@ def c15_scenarios(tier, seed):
         hc = (i % 2 == 0)
         out.append(scen(i + 1, num_workers=w, health_check=hc, hc_conns=(rnd.choice([1, 3, 8, 20]) if hc else None), batch_size=batches[(i // 2) % 4],
                         fault_percentage=faults[i % 3], status_interval=intervals[(i // 3) % 3], client_stats=(i % 4 in (1, 2)),
-                        source=("env" if i % 3 == 1 else "file"), probe_socks=32, probe_rounds=2, observe_ms=100, spread_probe=True))
+                        source=("env" if i % 3 == 1 else "file"), probe_socks=32, probe_rounds=2, observe_ms=100, spread_probe=True,
+                        # the process is suspended and resumed (job control, a container freeze, a debugger attaching): the workers'
+                        # waits are interrupted; every worker must still be there and answer afterwards
+                        stalled_bursts=([[40, "mix"], [24, "I"]] if i % 3 == 0 else None)))
     # many simultaneous health-check connections on few listeners (more than one wake-up's worth per worker)
     out.append(scen(800, num_workers=1, health_check=True, hc_conns=48, probe_socks=8, probe_rounds=1))
     out.append(scen(801, num_workers=2, health_check=True, hc_conns=90, probe_socks=8, probe_rounds=1))
